@@ -35,6 +35,11 @@ import (
 	"golang.org/x/tools/go/ssa"
 )
 
+// all replay attempts of one check run share this much wall time
+const replayBudget = 150 * time.Second
+
+var replayStart time.Time
+
 const replayMaxBytes = 2048
 const replayMaxList = 16
 
@@ -431,6 +436,15 @@ func (rp *replayer) concretize(st *State, v Value, t types.Type) (interface{}, b
 		}
 		out := []interface{}{}
 		et := t.Underlying().(*types.Slice).Elem()
+		if rp.twins {
+			for i := 1; i < n; i++ {
+				var same []*Term
+				for _, col := range l.Cols {
+					same = append(same, Eq(Select(col, BV(64, int64(i))), Select(col, BV(64, 0))))
+				}
+				m.prefer([]*Term{And(same...)})
+			}
+		}
 		for i := 0; i < n; i++ {
 			ev, ok := rp.concretize(st, ex.listElem(st, &l, BV(64, int64(i))), et)
 			if !ok {
@@ -458,7 +472,9 @@ func (rp *replayer) readBytes(arr, off *Term, n int) ([]byte, bool) {
 			pref = append(pref, Eq(b, BV(8, int64((i*7+rp.salt*31+13)%251))))
 		}
 		rp.salt++
-		rp.m.prefer(pref)
+		if !rp.twins {
+			rp.m.prefer(pref)
+		}
 		vs, ok := rp.m.values(ts)
 		if !ok {
 			return nil, false
@@ -589,10 +605,11 @@ func (rp *replayer) pinValue(st *State, v Value, t types.Type, j interface{}) []
 // ---- running the real function
 
 type replayer struct {
-	w    *World
-	ex   *Exec
-	m    *modelSession
-	salt int
+	w     *World
+	ex    *Exec
+	m     *modelSession
+	salt  int
+	twins bool // second strategy: prefer list elements equal to the first one (colliding entries) over diverse bytes
 }
 
 const replayHelpers = `
@@ -820,6 +837,13 @@ func tryReplay(w *World, ex *Exec, o *Obligation) {
 	if fn == nil || o.pre == nil || o.Goal == nil {
 		return
 	}
+	if replayStart.IsZero() {
+		replayStart = time.Now()
+	}
+	if time.Since(replayStart) > replayBudget {
+		o.replayNote = "no concrete replay attempted: the replay time budget of this run is used up"
+		return
+	}
 	if !replayable(fn) {
 		o.replayNote = "no concrete replay: " + o.Fn + " takes keeper state, a context or dependencies (outside the replay harness's reach)"
 		return
@@ -833,15 +857,27 @@ func tryReplay(w *World, ex *Exec, o *Obligation) {
 	ctr := 0
 	as, goal := propagate(o.Assumes, o.Goal)
 	base := append(append([]*Term{}, as...), Not(extGoal(goal, true, &ctr)))
-	rp := &replayer{w: w, ex: ex, m: &modelSession{asserts: base, without: o.Without}}
 	ex.noCheck++
 	defer func() { ex.noCheck-- }()
+	for _, twins := range []bool{false, true} {
+		rp := &replayer{w: w, ex: ex, m: &modelSession{asserts: base, without: o.Without}, twins: twins}
+		if rp.attempt(fn, c, o) {
+			return
+		}
+		if time.Since(replayStart) > replayBudget {
+			return
+		}
+	}
+}
+
+// attempt: one candidate input (under one preference strategy), run on the real code, judged.
+func (rp *replayer) attempt(fn *ssa.Function, c *Contract, o *Obligation) bool {
 	var inputs []interface{}
 	for i, p := range fn.Params {
 		j, ok := rp.concretize(o.pre, o.args[i], p.Type())
 		if !ok {
 			o.replayNote = fmt.Sprintf("no candidate input: the solver gave no model for parameter %s even with the quantified axioms dropped (%d solver calls)", p.Name(), rp.m.calls)
-			return
+			return false
 		}
 		inputs = append(inputs, j)
 	}
@@ -851,21 +887,21 @@ func tryReplay(w *World, ex *Exec, o *Obligation) {
 	o.replayData = data
 	if res == nil {
 		o.replayNote = "candidate input found but the injected test did not run: " + errText
-		return
+		return false
 	}
 	data["observed"] = res
 	if pm, ok := res["panic"]; ok {
 		if o.Kind == "nopanic" || o.Kind == "requires" {
 			o.replayed = true
 			o.replayNote = fmt.Sprintf("confirmed on the real code: %s panics on the candidate input: %v", fnName(fn), pm)
-			return
+			return true
 		}
 		o.replayNote = fmt.Sprintf("the real code panics on the candidate input (%v); that is a C20 matter, this obligation is not decided by it", pm)
-		return
+		return false
 	}
 	if o.Kind == "nopanic" {
 		o.replayNote = "candidate input did not reproduce: the real code does not panic on it (the dropped axioms allowed a spurious model)"
-		return
+		return false
 	}
 	// verdict by the contract: is some ensures clause provably false for (input, observed output)?
 	for _, cl := range c.byKind("ensures") {
@@ -873,10 +909,11 @@ func tryReplay(w *World, ex *Exec, o *Obligation) {
 			o.replayed = true
 			o.replayNote = fmt.Sprintf("confirmed on the real code: for the candidate input the observed result makes ensures[%s] false (%s)", cl.Label, why)
 			data["refuted_clause"] = cl.Text
-			return
+			return true
 		}
 	}
 	o.replayNote = "candidate input did not reproduce: no ensures clause is provably false for the observed result"
+	return false
 }
 
 // literal builds the constant Value of Go type t described by j.
@@ -1017,4 +1054,45 @@ func (rp *replayer) clauseRefuted(fn *ssa.Function, c *Contract, o *Obligation, 
 		how = "solver: the clause is unsatisfiable for these constants"
 	}
 	return true, how
+}
+
+// cmdReplay re-runs a recorded replay against the current tree: govc replay <replay file>.
+func cmdReplay(args []string) int {
+	if len(args) != 1 {
+		fmt.Println("usage: govc replay <file under replays/>")
+		return 2
+	}
+	data, err := os.ReadFile(args[0])
+	if err != nil {
+		fmt.Println(err)
+		return 2
+	}
+	var rec map[string]interface{}
+	if err := json.Unmarshal(data, &rec); err != nil {
+		fmt.Println(err)
+		return 2
+	}
+	fmt.Printf("property %v, obligation %v\n  clause: %v\n  solver: %v (%v)\n", rec["property"], rec["obligation"], rec["clause"], rec["solver_status"], firstN(fmt.Sprint(rec["solver_output"]), 300))
+	rp, _ := rec["replay"].(map[string]interface{})
+	src, _ := rp["go_test"].(string)
+	if src == "" {
+		fmt.Printf("  no concrete input was recorded for this obligation: %v\n", rec["replay_result"])
+		return 1
+	}
+	fnKey, _ := rp["function"].(string)
+	rel := map[string]string{"types": "x/cctp/types", "keeper": "x/cctp/keeper", "cli": "x/cctp/client/cli", "cctp": "x/cctp"}[strings.SplitN(fnKey, ".", 2)[0]]
+	r := &replayer{}
+	res, errText := r.runReal(src, filepath.Join(repoDir(), rel))
+	in, _ := json.Marshal(rp["inputs"])
+	fmt.Printf("  function: %s\n  input:    %s\n", fnKey, in)
+	if res == nil {
+		fmt.Println("  the injected test did not run:", errText)
+		return 2
+	}
+	out, _ := json.Marshal(res)
+	fmt.Printf("  observed on the current tree: %s\n  recorded verdict: %v\n", out, rec["replay_result"])
+	if cl, ok := rp["refuted_clause"]; ok {
+		fmt.Printf("  refuted clause: %v\n", cl)
+	}
+	return 1
 }
